@@ -358,11 +358,24 @@ func placeFirstImport(fset *token.FileSet, f *ast.File) {
 		end = cg.End()
 	}
 
-	// the line break behind the clause and its comments, unless what follows
-	// begins right there
-	pos := end + 1
-	if pos >= next {
-		pos = end
+	// The first comment behind the clause's own, if any: the import has to
+	// stay in front of it.
+	limit := next
+	for _, cg := range f.Comments {
+		if len(cg.List) > 0 && cg.Pos() > end && cg.Pos() < limit {
+			limit = cg.Pos()
+			break
+		}
+	}
+
+	// Behind a blank line if there is one to spare (what astutil aims at),
+	// else on the next line, else right behind the clause.
+	pos := end
+	switch {
+	case end+2 < limit || (end+2 == limit && limit == next && next != token.Pos(file.Base()+file.Size())):
+		pos = end + 2
+	case end+1 < limit:
+		pos = end + 1
 	}
 	decl.TokPos = pos
 	if spec, ok := decl.Specs[0].(*ast.ImportSpec); ok {
